@@ -82,7 +82,8 @@ def derive(a0: bool, a1: bool, b0: bool, b1: bool, c0: bool, c1: bool, k0: bool,
     pre: True
     post: _
     """
-    tick()
+    if tick():
+        return True
     parts = (PART or "0,4").split(",")
     t, d = int(parts[0]), int(parts[1])
     if len(parts) > 2 and (k1 or q1):
@@ -185,7 +186,8 @@ def derive_reach(a0: bool, a1: bool, b0: bool, b1: bool) -> bool:
     pre: True
     post: _
     """
-    tick()
+    if tick():
+        return True
     i1, i2 = bits(a0, a1), bits(b0, b1)
     if i1 >= 3 or i2 >= 3:
         return True
